@@ -9,7 +9,7 @@
    (model/Rules.v). *)
 From Coq Require Import List NArith ZArith Bool.
 From MevVerif Require Import lib.Bytes model.Rules model.ProviderSvc proofs.ProviderSvc_proofs.
-From MevVerif Require check.Check_C12 proofs.Check_C12_proofs proofs.Check_C12_fields.
+From MevVerif Require check.Check_C12 proofs.Check_C12_proofs proofs.Check_C12_fields proofs.Check_C12_delivery.
 Import ListNotations.
 Open Scope N_scope.
 
@@ -134,8 +134,8 @@ Print Assumptions C12_deliveries_le_decisions.
    prediction, for EVERY op list -- proved for three of its six clauses: "forwarded-invalid", "fields-differ"
    (each forwarded bid is the bid of the first submission of that call, every call forwarded at most once)
    and "stream-ended" (a predicted stream end always has its cause among the ops, the model never panics).
-   Still open (partial): the clauses "double-delivery", "leak" and "decision-dropped"; for these the absence
-   of false alarms rests on the runs.  The checker's own bookkeeping registers an expected delivery at the
+   The clause "double-delivery" is covered by the next theorem.  Still open: the clauses "leak" and
+   "decision-dropped"; for these the absence of false alarms rests on the runs.  The checker's own bookkeeping registers an expected delivery at the
    callback half of a decision and lets a parked or ended stream read nothing, as the machine does. *)
 Theorem C12_checker_accepts_model_partial : forall i l,
   Check_C12.chk_forwarded_valid (Check_C12_proofs.model_case i l) = true /\
@@ -147,3 +147,15 @@ Proof.
                          (Check_C12_fields.checker_accepts_model_stream i l))).
 Qed.
 Print Assumptions C12_checker_accepts_model_partial.
+
+(* The clause "double-delivery" (at most one value per channel, every value a well-formed decision sent for
+   that call's digest, deliveries of (digest, status) bounded by the decisions (digest, status), no panic)
+   never fires on the model's own prediction, for every op list in which no call identifier is submitted
+   twice.  That premise is needed: with a repeated OSubmit h the prediction lists call h twice and the
+   clause counts its one delivery twice; the driver never generates such a list.  The bound itself is
+   C12_deliveries_le_decisions. *)
+Theorem C12_checker_accepts_model_double_delivery : forall i l,
+  NoDup (map fst (Check_C12.submitted l)) ->
+  Check_C12.chk_delivery (Check_C12_proofs.model_case i l) = true.
+Proof. exact Check_C12_delivery.checker_accepts_model_delivery. Qed.
+Print Assumptions C12_checker_accepts_model_double_delivery.
